@@ -121,7 +121,7 @@ impl Analysis<Expr> for ExprAnalysis {
             unsafe { std::mem::transmute::<&mut f32, &mut F32>(&mut to.rows) },
             F32::from(from.rows),
         );
-        let merge_order = egg::merge_max(&mut to.orderby, from.orderby);
+        let merge_order = merge_common_order(&mut to.orderby, from.orderby);
         merge_const | merge_range | merge_columns | merge_schema | merge_rows | merge_order
     }
 
@@ -183,6 +183,20 @@ impl Analysis<Expr> for TypeSchemaAnalysis {
         let merge_overs = egg::merge_max(&mut to.overs, from.overs);
         merge_type | merge_schema | merge_aggs | merge_overs
     }
+}
+
+/// Merge two order keys and keep their common prefix: any member of the class may be chosen by
+/// the extractor (a hash aggregation next to a sort aggregation, say), so the class is only
+/// ordered by what all of its members are ordered by.
+fn merge_common_order(to: &mut order::OrderKey, from: order::OrderKey) -> DidMerge {
+    let common = (to.iter().zip(from.iter()))
+        .take_while(|(a, b)| a == b)
+        .count();
+    let did_merge = DidMerge(common < to.len(), common < from.len());
+    if common < to.len() {
+        *to = to[..common].into();
+    }
+    did_merge
 }
 
 /// Merge two result set and keep the smaller one.
